@@ -12,6 +12,26 @@ def tick_size(ix, oid):
     return ix.fut[oid]["info"]["tick_size"]
 
 
+def tenthousandths(x):
+    """the price as the code writes it before rounding to the tick: "{:.4f}" (glue: Python's float formatting)"""
+    return int("{:.4f}".format(x).replace(".", ""))
+
+
+def round_price_spec(lim, tick):
+    """LimitOrder.round_price as the model `roundPrice` has it (ten-thousandths, down to the tick grid), back as the float the code would produce"""
+    import decimal
+    l, t = tenthousandths(lim), tenthousandths(tick)
+    r = l if t == 0 else (l // t) * t
+    return float(decimal.Decimal(r) / decimal.Decimal(10000))
+
+
+def carried_limit(ix, oid, lim):
+    """the limit price an order created with limit `lim` carries: rounded down to the tick when base.round_price is on"""
+    if lim is None or lim != lim or not (ix.cfgk.get("base_extra") or {}).get("round_price"):
+        return lim
+    return round_price_spec(lim, tick_size(ix, oid))
+
+
 def market_inputs(ix, sim, oid, day8, auction):
     """(deal, limit_up, limit_down, volume) as the bundle prescribes; None = missing"""
     bar = ix.bar(oid, day8)
